@@ -219,7 +219,10 @@ fn is_zero_size_impl<'a>(
         }) => {
             if *length_width == 0 {
                 // zero-sized array
-                if length_range.clone().count() == 1 && *length_range.start() == 0 {
+                if *length_range.start() == 0
+                    && *length_range.end() == 0
+                    && !length_range.is_empty()
+                {
                     true
                 } else {
                     is_zero_size_impl(elements.as_str(), schema, stack)?
